@@ -287,14 +287,39 @@ class Scalar(AbstractValueWithQuantityObject):
     def __hash__(self) -> int:  # type:ignore[override]
         return hash((self._value, self._quantity))
 
-    def __lt__(self, other: Any) -> bool:
+    def _GetComparableValues(self, other: Any) -> Tuple[float, float]:
         if self.quantity_type != other.quantity_type:
             msg = "can not compare scalars of different quantity types: %r != %r"
             raise TypeError(msg % (self.quantity_type, other.quantity_type))
 
-        v1 = self._value
-        v2 = other.GetValue(self.unit)
+        if self.unit == other.unit:
+            return self._value, other.GetValue()
+
+        if self._quantity.IsDerived():
+            return self._value, other.GetValue(self.unit)
+
+        # Both values are converted to the same unit (the base unit) so that comparing a with b
+        # and b with a always compares the same numbers.
+        base_unit = self._unit_database.GetBaseUnit(self.quantity_type)
+        return self.GetValue(base_unit), other.GetValue(base_unit)
+
+    def __lt__(self, other: Any) -> bool:
+        v1, v2 = self._GetComparableValues(other)
         return v1 < v2
+
+    # Note: the comparisons below are explicitly defined (instead of relying on total_ordering)
+    # because __eq__ also considers the unit, whereas the ordering considers the converted value.
+    def __le__(self, other: Any) -> bool:
+        v1, v2 = self._GetComparableValues(other)
+        return v1 <= v2
+
+    def __gt__(self, other: Any) -> bool:
+        v1, v2 = self._GetComparableValues(other)
+        return v1 > v2
+
+    def __ge__(self, other: Any) -> bool:
+        v1, v2 = self._GetComparableValues(other)
+        return v1 >= v2
 
     # right ----------------------------------------------------------------------------------------
     def __rtruediv__(self, other: Any) -> "Scalar":
